@@ -12,9 +12,10 @@ def isCompound : Kind → Bool
   | .kvp | .ed | .fixed | .ms | .fk => true
   | _ => false
 
-/-- a string edit names existing characters and keeps exactly the characters of either string, in order -/
+/-- a string edit names existing characters and keeps exactly the characters of either string, in order; the two
+    strings differ (`StringNode.edits` returns a Match for equal strings) -/
 def StrOK (a b : Str) (subs : List Script) : Prop :=
-  StrResolved a b subs ∧ sideChars true a b subs = a ∧ sideChars false a b subs = b
+  StrResolved a b subs ∧ sideChars true a b subs = a ∧ sideChars false a b subs = b ∧ a ≠ b
 
 /-- the key edit of a KeyValuePairEdit: `Match(k, k', 0)` for equal keys, otherwise `StringNode.edits` -/
 def KeyOK (fk tk : Str) (ke : Script) : Prop :=
@@ -155,7 +156,7 @@ theorem key_proj (side : Bool) (fk tk : Str) (ke : Script) (h : KeyOK fk tk ke) 
     · rcases hk with rfl | rfl
       · simp only [hc, decide_true, renderEdit, if_true, proj_change]
         cases side <;> simp [sideItem, Item.text, jsonText, scalarText]
-      · obtain ⟨hr, hf, ht⟩ := hs rfl
+      · obtain ⟨hr, hf, ht, _⟩ := hs rfl
         simp only [hc, decide_true, renderEdit, if_true, proj_strOut side fk tk subs hr]
         cases side <;> simp [hf, ht]
     · have hc0 : c = 0 := by omega
@@ -289,7 +290,7 @@ theorem main : ∀ s, Main s := by
     · simp [EditSpec, absent, Script.kind, renderEdit, proj_plain, keepS_inserted]
   | str =>
     simp only [WF] at hwf
-    obtain ⟨a, b, rfl, rfl, hr, hf, ht⟩ := hwf
+    obtain ⟨a, b, rfl, rfl, hr, hf, ht, _⟩ := hwf
     simp only [EditSpec, absent, Script.kind]
     have hn : (if side = true then Kind.str == Kind.insert else Kind.str == Kind.remove) = false := by
       cases side <;> rfl
